@@ -102,7 +102,9 @@ def check_chain(run, db):
             _emit(run, f, db, okk, 'allocates sizeof(T) + additional, constructs T(joint(additional), ...) at its start', 'create: ' + why, site('joint_ptr::create'))
         for f in resets:
             n += 1
-            S = [s for s in fwd.summarize(f, db=db, roles={}) if s.end == 'return']
+            # private helpers of joint_ptr (an extracted release routine) are inlined: the rule is about what reset() does, not where
+            S = [s for s in fwd.summarize(f, db=db, roles={}, inline_pred=lambda fn, callee, t: callee.cls == fn.cls and callee.kind == 'method'
+                                          and len(callee.blocks) <= 12 and callee.short not in ('deallocate_node', 'get', 'operator*', 'operator->')) if s.end == 'return']
             probs = []
             for s in S:
                 rel = [fc for fc in s.fwd if fc.kind == 'deallocate_node']
@@ -198,7 +200,20 @@ def _emit(run, f, db, okk, okmsg, badmsg, site, rule='R-TERM.chain'):
         run.violation(rule, inst, f.loc, badmsg, site=site)
 
 
+def check_create_handler(run, db):
+    """the block is also freed whole when construction fails: joint_ptr::create releases the allocation exactly once on every
+    exceptional path with the terms it was allocated with (the shared guard rule of C20, reported here as R-JOINT.handler)"""
+    from rules import c20, c05
+    rr = c05._Renamed(run, 'R-JOINT.handler')
+    n = 0
+    for f in db.find(cls_t='joint_ptr', short='create'):
+        c20.check_acquire_guard(rr, db, f, 'joint_ptr::create')
+        n += 1
+    return n
+
+
 def run(run):
+    run.rule('R-JOINT.handler', 'a failed construction releases the block with the terms it was allocated with', floor=2)
     run.rule('R-TERM.chain', 'allocation terms travel unchanged to the release', floor=8)
     run.rule('R-JOINT.bound', 'joint stack bounded by end_; overflow becomes out_of_fixed_memory', floor=6)
     run.rule('R-JOINT.lifo', 'joint_allocator frees only the last allocation', floor=1)
@@ -211,3 +226,5 @@ def run(run):
             run.broke('joint chain functions not found [%s]' % cfg)
         if check_lifo(run, db) < 4:
             run.broke('joint_allocator / joint_array functions not found [%s]' % cfg)
+        if check_create_handler(run, db) < 1:
+            run.broke('joint_ptr::create not instantiated [%s]' % cfg)
